@@ -17,7 +17,9 @@ extern int g_no_error;      /* stubs/base.c */
 struct token tok;
 const struct target *targ;
 
+#ifndef NTOK
 #define NTOK 12
+#endif
 static struct token g_script[NTOK];
 static unsigned g_pos;
 
@@ -168,6 +170,33 @@ static struct expr *binl_(struct expr *e) { return e->u.binary.l; }
 static struct expr *binr_(struct expr *e) { return e->u.binary.r; }
 static u64 constof_(struct expr *e) { return e->u.constant.u; }
 static struct expr *strip(struct expr *e) { while (e->kind == EXPRCAST) e = e->base; return e; }
+
+/* a type as written in a type name / of an expression: selector, and for T_PTR the referenced type */
+struct tdesc { unsigned ts, bs, bq; };
+
+/* C11 6.2.7p1, 6.7.2.2p4, 6.7.6.1p2, 6.7.6.2p6 on the universe (unqualified top level) */
+static bool
+spec_basecompat(unsigned a, unsigned b)
+{
+	if (a == b)
+		return true;
+	if (a == T_ENUM && b == T_UINT || a == T_UINT && b == T_ENUM)
+		return true;                        /* an enumerated type and its compatible integer type */
+	if (a == T_ARR3 && b == T_ARRINC || a == T_ARRINC && b == T_ARR3)
+		return true;                        /* int[3] ~ int[] */
+	return false;
+}
+
+static bool
+spec_compat(struct tdesc a, struct tdesc b)
+{
+	/* T_PI is `int *` */
+	if (a.ts == T_PI) { a.ts = T_PTR; a.bs = T_INT; a.bq = 0; }
+	if (b.ts == T_PI) { b.ts = T_PTR; b.bs = T_INT; b.bq = 0; }
+	if (a.ts == T_PTR || b.ts == T_PTR)
+		return a.ts == b.ts && a.bq == b.bq && spec_basecompat(a.bs, b.bs);     /* 6.7.6.1p2 */
+	return spec_basecompat(a.ts, b.ts);
+}
 
 /* ASSUMED: folding is proved on eval.c itself (EVAL.*); operands here are not constants: eval(e) == e */
 #ifndef POST_OWN_EVAL
